@@ -28,10 +28,10 @@ func main() {
 	dh.Generate(r, 2, []int{1, 2, 3}, dh.NCfg)
 	if r.Thorough() {
 		dh.PrlSweep(r, 3, 4)
-		dh.Exhaustive(r, "hist", 2, 4, 14)
+		dh.Exhaustive(r, "hist", 2, 4, 16)
 		dh.Exhaustive(r, "histf", 3, 5, 8)
 	} else {
 		dh.PrlSweep(r, 3, 3)
-		dh.Exhaustive(r, "hist", 3, 3, 14)
+		dh.Exhaustive(r, "hist", 3, 3, 16)
 	}
 }
